@@ -660,7 +660,7 @@ func RunC20(r *core.Run) {
 		rr := core.NewRand(r.Seed, 0xC20, 2, uint64(idx))
 		var b []byte
 		n := rr.Range(0, 4)
-		b = append(b, rr.Bytes(rr.Intn(40), []byte("abcxyz-_@0123456789. :[]\xb0\xb5\xb9\x80\xff"))...)
+		b = append(b, rr.Bytes(rr.Intn(40), []byte("abcxyz-_@0123456789. :[]\xb0\xb5\xb9\x80\xff\x00"))...)
 		for i := 0; i < n; i++ {
 			if rr.Intn(5) == 0 {
 				// a long run of digits directly in front of (and so part of the first group's
@@ -677,7 +677,7 @@ func RunC20(r *core.Run) {
 			default:
 				b = append(b, fmt.Sprintf("%d.%d..%d.%d.%d", rr.Intn(256), rr.Intn(256), rr.Intn(256), rr.Intn(256), rr.Intn(256))...)
 			}
-			b = append(b, rr.Bytes(rr.Intn(30), []byte("abcxyz-_@0123456789. \xb1\xb7\xae\xfe"))...)
+			b = append(b, rr.Bytes(rr.Intn(30), []byte("abcxyz-_@0123456789. \xb1\xb7\xae\xfe\x00"))...)
 		}
 		if len(b) > 300 {
 			b = b[:300]
@@ -690,7 +690,7 @@ func RunC20(r *core.Run) {
 		}
 	})
 	// 8-bit bytes next to / instead of digits (exhaustive over a small alphabet)
-	es8 := NewEnum("1.\xb2\x80x", int(r.Pick(9, 10)))
+	es8 := NewEnum("1.\xb2\x80x\x00", int(r.Pick(8, 9)))
 	st = r.Stage("enum-8bit", es8.Size(), func(w *core.Worker, idx int64) {
 		s := sc(w)
 		s.buf = es8.appendStr(s.buf[:0], idx)
